@@ -7,7 +7,7 @@ d=$(mktemp -d /tmp/mutrun.XXXXXX)
 cp -r /repo/src $d/src
 ( cd $d && grep -v '^# breaks' $patch | patch -s -p1 ) || { echo "patch failed"; rm -rf $d; exit 2; }
 cd /verif
-VERIF_REPO=$d ./check $id $tier > $d/out.txt 2>&1
+VERIF_EVIDENCE_DIR=$d/evidence VERIF_REPO=$d ./check $id $tier > $d/out.txt 2>&1
 rc=$?
 grep -v "^KNOWN-FINDING" $d/out.txt | tail -${LINES_OUT:-3}
 rm -rf $d
